@@ -545,25 +545,141 @@ def r14_record_completeness(chk, rule='C03.R14', fields=None):
 
 
 
-def r14_declared_names(chk):
+def r17_declared_names(chk):
     """The JSON document names every symbol as the MIB declares it, up to the one documented substitution (hyphen ->
     underscore).  IntermediateCodeGen.transOpers produces both the record key and the `name` member, so whatever else
     it does to a name (a keyword prefix, case mapping, truncation) shows in the document."""
     model = chk.model
     o, fn = model.cls(INTER, 'IntermediateCodeGen').find_method('transOpers')
-    chk.doc('C03.R14', 'IntermediateCodeGen.transOpers(symbol) returns symbol with "-" replaced by "_" and nothing else: '
+    chk.doc('C03.R17', 'IntermediateCodeGen.transOpers(symbol) returns symbol with "-" replaced by "_" and nothing else: '
                        'a single return of <param>.replace("-", "_") (or "_".join(<param>.split("-"))); no branch, no '
                        'prefix, no other transformation of the declared name')
     param = fn.args.args[-1].arg
     body = [st for st in fn.body if not (isinstance(st, ast.Expr) and isinstance(st.value, ast.Constant))]
     ok = len(body) == 1 and isinstance(body[0], ast.Return) and body[0].value is not None and \
         norm(body[0].value) in ("%s.replace('-', '_')" % param, "'_'.join(%s.split('-'))" % param)
-    chk.ob('C03.R14', 'IntermediateCodeGen.transOpers', ok, where(o.mod, fn),
+    chk.ob('C03.R17', 'IntermediateCodeGen.transOpers', ok, where(o.mod, fn),
            'transOpers is `%s`: names in the JSON document (record keys, `name` members, object references) would '
            'differ from the declared names by more than the hyphen substitution' % '; '.join(norm(s)[:60] for s in body))
+
+
+
+def r_absent_values_C03_R15(chk):
+    """optional clause parts are used where they are present, not where they are absent"""
+    common.no_value_taken_from_an_absent_operand(chk, 'C03.R15', ['pysmi/codegen/intermediate.py', 'pysmi/codegen/symtable.py', 'pysmi/codegen/jsondoc.py', 'pysmi/codegen/pysnmp.py'], floor=2)
+
+
+
+def r16_symbol_table_registration(chk, rule='C03.R16'):
+    """The document is emitted by walking the symbol table's registration order (C03.R5), and OIDs / base types are
+    resolved through the symbol table's records: a clause the symbol-table pass does not register, or registers
+    without the member the later passes read, is silently absent or unresolvable."""
+    model = chk.model
+    sci = model.cls(SYMTAB, 'SymtableCodeGen')
+    stbl = ir.handlers_table(sci)
+    clauses = ir.clause_model(model)
+    chk.doc(rule, 'each of the eleven clause handlers of SymtableCodeGen calls self.regSym(transOpers(<declared name>), '
+                  '<record>[, parents]) exactly once on every path (genTypeDeclaration: under `declaration` / parent type '
+                  'only); the record is a dict display holding origName = the declared name, plus oid for OID-bearing '
+                  'clauses and syntax for OBJECT-TYPE and type declarations - the members genNumericOid / getBaseType read')
+    need = {'typeDeclaration': set(['syntax', 'origName'])}
+    n = 0
+    for tag in sorted(clauses):
+        hname = stbl.get(tag)
+        if hname is None:
+            chk.ob(rule, 'SymtableCodeGen/%s handler' % tag, False, SYMTAB, 'no handler')
+            continue
+        o, fn = sci.find_method(hname)
+        key = 'SymtableCodeGen.%s' % hname
+        cfg = CFG(fn)
+        regs = [c for c in walk_no_nested(fn) if isinstance(c, ast.Call) and common.is_self_attr(c.func, 'regSym')]
+        # the registration of the declared symbol: first argument is transOpers(<first unpacked name>)
+        un = [a.id for s in fn.body if isinstance(s, ast.Assign) and isinstance(s.targets[0], ast.Tuple) and
+              _key_is(s.value, fn.args.args[1].arg) for a in s.targets[0].elts if isinstance(a, ast.Name)]
+        namevar = un[0] if un else None
+        normed = [s.targets[0].id for s in walk_no_nested(fn) if isinstance(s, ast.Assign) and
+                  isinstance(s.targets[0], ast.Name) and norm(s.value) == 'self.transOpers(%s)' % namevar]
+        own = [c for c in regs if c.args and isinstance(c.args[0], ast.Name) and c.args[0].id in normed]
+        n += 1
+        if tag == 'typeDeclaration':
+            chk.ob(rule, key + '/registers-the-declared-symbol', len(own) == 1, where(o.mod, fn),
+                   '%d registrations of the declared symbol' % len(own))
+        else:
+            rnodes = set(cfg.node_of(common.stmt_of(r)) for r in own)
+            at_least = bool(rnodes) and cfg.exit not in cfg.reach([cfg.entry], avoid=rnodes, skip_labels=('exc',))
+            chk.ob(rule, key + '/registers-the-declared-symbol', len(own) == 1 and at_least, where(o.mod, fn),
+                   'the declared symbol is registered %s' % ('on no path / not on every path' if not (own and at_least)
+                                                             else '%d times' % len(own)))
+        for r in own:
+            rec = r.args[1] if len(r.args) > 1 else None
+            disp = None
+            if isinstance(rec, ast.Name):
+                ds = [s.value for s in walk_no_nested(fn) if isinstance(s, ast.Assign) and _key_is(s.targets[0], rec.id)
+                      and isinstance(s.value, ast.Dict)]
+                disp = ds[0] if len(ds) == 1 else None
+            elif isinstance(rec, ast.Dict):
+                disp = rec
+            keys = dict((k.value, v) for k, v in zip(disp.keys, disp.values) if isinstance(k, ast.Constant)) if disp \
+                is not None else {}
+            want = need.get(tag, set(['oid', 'origName']) | (set(['syntax']) if tag == 'objectTypeClause' else set()))
+            missing = sorted(want - set(keys))
+            n += 1
+            chk.ob(rule, key + '/record-members', disp is not None and not missing, where(o.mod, r),
+                   'the record lacks %s' % missing if disp is not None else 'the record is not a dict display')
+            if 'origName' in keys:
+                n += 1
+                chk.ob(rule, key + '/origName', _key_is(keys['origName'], namevar), where(o.mod, r),
+                       'origName must be the declared name (%s), found %s' % (namevar, norm(keys['origName'])))
+    chk.floor(rule, 30, 'eleven symbol-table clause handlers')
+
+
+
+def r18_names_are_case_sensitive(chk):
+    """the document names symbols exactly as declared (case included)"""
+    common.names_are_case_sensitive(chk, 'C03.R18', ['pysmi/codegen/intermediate.py', 'pysmi/codegen/symtable.py',
+                                                     'pysmi/codegen/base.py', 'pysmi/codegen/jsondoc.py'], floor=3)
+
+
+
+def r19_clause_components_not_replaced(chk, rule='C03.R19', both=True):
+    """What a clause says reaches the record: a variable unpacked from the clause data is re-assigned only from an
+    expression that reads that same variable (name = self.transOpers(name), defval = self.genDefVal(defval, ..)) - never
+    from a constant or from something else (maxaccess = 'not-accessible')."""
+    model = chk.model
+    clauses = ir.clause_model(model)
+    chk.doc(rule, 'in every clause handler (IR and symbol table) a variable unpacked from the clause data is only ever '
+                  're-assigned from an expression that reads that variable itself: no component of a declaration is '
+                  'replaced by a constant or by another component')
+    n = 0
+    gens = [(INTER, 'IntermediateCodeGen')] + ([(SYMTAB, 'SymtableCodeGen')] if both else [])
+    for rel, cname in gens:
+        ci = model.cls(rel, cname)
+        tbl = ir.handlers_table(ci)
+        for tag in sorted(clauses):
+            hname = tbl.get(tag)
+            if not hname:
+                continue
+            o, fn = ci.find_method(hname)
+            un = [a.id for s in fn.body if isinstance(s, ast.Assign) and isinstance(s.targets[0], ast.Tuple) and
+                  _key_is(s.value, fn.args.args[1].arg) for a in s.targets[0].elts if isinstance(a, ast.Name)]
+            if not un:
+                continue
+            n += 1
+            bad = []
+            for st in walk_no_nested(fn):
+                if isinstance(st, ast.Assign):
+                    for t in st.targets:
+                        for tt in (t.elts if isinstance(t, ast.Tuple) else [t]):
+                            if isinstance(tt, ast.Name) and tt.id in un and not _key_is(st.value, fn.args.args[1].arg):
+                                reads = any(isinstance(x, ast.Name) and x.id == tt.id for x in ast.walk(st.value))
+                                if not reads:
+                                    bad.append(st)
+            chk.ob(rule, '%s.%s' % (cname, hname), not bad, where(o.mod, bad[0]) if bad else where(o.mod, fn),
+                   'a clause component is replaced: `%s`' % (norm(bad[0])[:70] if bad else ''))
+    chk.floor(rule, 11, 'clause handlers')
 
 
 RULES = [r1_kinds, r2_one_registration, r3_classes, r4_field_provenance, r5_emission, r6_transopers_siblings,
          r7_json_document, r8_nodetype, r9_revision_time, r10_per_module_state, r11_argument_agreement,
          r12_fields_not_gated_by_text_switch, r13_collectors,
-         r14_record_completeness, r14_declared_names]
+         r14_record_completeness, r17_declared_names, r_absent_values_C03_R15, r16_symbol_table_registration, r18_names_are_case_sensitive, r19_clause_components_not_replaced]
